@@ -118,10 +118,10 @@ def _index(x, items):
 def one(rec, hub, seed, tier, i, tmpdir):
     fd = hub.fd
     rng = case_nprng(seed, "c12.fault", 0, i)
-    route = ["from_df", "set_values_from_df", "from_df", "csv", "set_values_from_df", "xlsx"][i % 6]
+    route = ["from_df", "set_values_from_df", "from_df", "csv", "set_values_from_df", "xlsx", "from_csv"][i % 7]
     if tier == "quick" and route == "xlsx" and (i // 6) % 3:
         route = "from_df"
-    text = route in ("csv", "xlsx")
+    text = route in ("csv", "xlsx", "from_csv")
     layout = "wide" if rng.random() < 0.35 else "long"
     spec, dims = F.make_dims(fd, rng, allow_untyped_int=False)
     k = len(spec)
@@ -181,6 +181,20 @@ def one(rec, hub, seed, tier, i, tmpdir):
                     df.to_csv(path, index=False)
                     reader = fd.CSVParameterReader(parameter_files={"par": path}, allow_missing_values=am, allow_extra_values=ae)
                     got = reader.read_parameter_values("par", dims)
+                elif route == "from_csv":
+                    # the whole assembly path: definition + dimension files + one parameter file, flags forwarded by from_csv
+                    path = os.path.join(tmpdir, f"p{i}.csv")
+                    df.to_csv(path, index=False)
+                    dim_files = {}
+                    for l_, n_, it_, dt_ in spec:
+                        dp = os.path.join(tmpdir, f"d{i}_{l_}.csv")
+                        pd.DataFrame({0: list(it_)}).to_csv(dp, index=False, header=False)
+                        dim_files[n_] = dp
+                    definition = fd.MFADefinition(
+                        dimensions=[fd.DimensionDefinition(name=n_, letter=l_, dtype=(dt_ or str)) for l_, n_, it_, dt_ in spec], processes=["sysenv"], flows=[], stocks=[],
+                        parameters=[fd.ParameterDefinition(name="par", dim_letters=tuple(s_[0] for s_ in spec))])
+                    mfa = fd.MFASystem.from_csv(definition, dimension_files=dim_files, parameter_files={"par": path}, allow_missing_parameter_values=am, allow_extra_parameter_values=ae)
+                    got = mfa.parameters["par"]
                 else:
                     path = os.path.join(tmpdir, f"p{i}.xlsx")
                     df.to_excel(path, index=False, sheet_name="data")
